@@ -19,6 +19,8 @@ def rust_ty(t, spelling="Option"):
     if k == "prim":
         return PRIM_RUST[t[1]]
     if k == "opt":
+        if spelling == "paren":          # a parenthesised type: syn::Type::Paren
+            return f"(Option<{rust_ty(t[1])}>)"
         return f"{spelling}<{rust_ty(t[1])}>"
     if k == "seq":
         return f"Vec<{rust_ty(t[3])}>"
@@ -88,12 +90,14 @@ def F(name, ty, spelling=None, transient=None, alias=False):
 def build():
     D = []
 
-    def rec(name, fields, steps=()):
-        D.append({"kind": "rec", "name": name, "fields": list(fields), "steps": list(steps)})
+    def rec(name, fields, steps=(), via_ty=False):
+        """via_ty: the declaration is stamped out by a macro_rules! macro that takes the field types as `$t:ty`
+        fragments, so the derive macro sees every field type inside an invisible group (syn::Type::Group)"""
+        D.append({"kind": "rec", "name": name, "fields": list(fields), "steps": list(steps), "via_ty": via_ty})
         return ("named", len(D) - 1, name)
 
-    def enum(name, variants, sorted_=False):
-        D.append({"kind": "enum", "name": name, "sorted": sorted_, "variants": variants})
+    def enum(name, variants, sorted_=False, via_ty=False):
+        D.append({"kind": "enum", "name": name, "sorted": sorted_, "variants": variants, "via_ty": via_ty})
         return ("named", len(D) - 1, name)
 
     def var(name, fields=(), steps=(), transient=False, shape="struct", disc=None):
@@ -111,6 +115,15 @@ def build():
     rec("OptStd", [F("a", ("opt", u8), "std::option::Option"), F("b", u8)])
     rec("OptCore", [F("a", u8), F("b", ("opt", s), "core::option::Option")])
     rec("OptAlias", [F("a", ("opt", u8), alias=True), F("b", u8)])
+    # the Option type reaches the derive macro inside a group: parenthesised, or as a `$t:ty` fragment of a
+    # macro_rules! macro that stamps out the declaration
+    rec("OptParen", [F("a", u8), F("b", ("opt", s), "paren")], [("opt", "b")])
+    rec("OptParenAdd", [F("id", P("u32")), F("note", ("opt", s), "paren")], [("add", "note", "(0)"), ("opt", "note")])
+    rec("OptGroup", [F("id", P("u32")), F("value", ("opt", s))], [("opt", "value")], via_ty=True)
+    rec("OptGroup0", [F("a", ("opt", u64)), F("b", ("seq", "vec", 0, ("opt", u8))), F("t", ("opt", u8), transient="(0)")],
+        via_ty=True)
+    enum("EOptGroup", [var("Empty"), var("Full", [F("payload", ("opt", ("seq", "vec", 0, u8))), F("count", u8)],
+                                         [("opt", "payload")])], via_ty=True)
     # transient fields at every position
     rec("TrFirst", [F("t", ("opt", s), transient="(0)"), F("a", u8), F("b", s)])
     rec("TrMid", [F("a", u8), F("t", i32, transient="z-7"), F("b", s)])
@@ -407,14 +420,27 @@ def parse(s):
 def emit(D):
     o = []
     o.append("// GENERATED by gen/mkcatalogue.py - do not edit. Real #[derive(BinaryCodec)] declarations.")
-    o.append("#![allow(non_camel_case_types, dead_code, clippy::all)]")
+    o.append("#![allow(non_camel_case_types, dead_code, unused_parens, clippy::all)]")
     o.append("use crate::sx::Sx;")
     o.append("use crate::sxv::*;")
     o.append("use desert::BinaryCodec;")
     o.append("")
     o.append("type MaybeU8 = Option<u8>;")
     o.append("")
+    o.append("macro_rules! via_ty_struct {")
+    o.append("    ($(#[$m:meta])* pub struct $name:ident { $( $(#[$fm:meta])* pub $f:ident : $t:ty ),* $(,)? }) => {")
+    o.append("        $(#[$m])* pub struct $name { $( $(#[$fm])* pub $f : $t ),* }")
+    o.append("    };")
+    o.append("}")
+    o.append("macro_rules! via_ty_enum {")
+    o.append("    ($(#[$m:meta])* pub enum $name:ident { $( $(#[$vm:meta])* $v:ident { $( $(#[$fm:meta])* $f:ident : $t:ty ),* $(,)? } ),* $(,)? }) => {")
+    o.append("        $(#[$m])* pub enum $name { $( $(#[$vm])* $v { $( $(#[$fm])* $f : $t ),* } ),* }")
+    o.append("    };")
+    o.append("}")
+    o.append("")
     for d in D:
+        if d.get("via_ty"):
+            o.append("via_ty_struct! {" if d["kind"] == "rec" else "via_ty_enum! {")
         if d["kind"] == "rec":
             st = rust_steps(d["steps"], d["fields"], D)
             o.append("#[derive(BinaryCodec)]")
@@ -462,6 +488,8 @@ def emit(D):
                             o.append(f"        #[transient({rust_val(f['ty'], parse(f['transient']), D)})]")
                         o.append(f"        {f['name']}: {rust_ty(f['ty'], f['spelling'])},")
                     o.append("    },")
+            o.append("}")
+        if d.get("via_ty"):
             o.append("}")
         o.append("")
     # conversions
